@@ -110,7 +110,7 @@ var c16Palette = func() [64]color.RGBA {
 	return p
 }()
 
-const c16NFills = 4
+const c16NFills = 5
 
 func c16Fill(d ivg.Destination, fill int, indirect bool, s float32) {
 	inv := 1 / s
@@ -124,11 +124,18 @@ func c16Fill(d ivg.Destination, fill int, indirect bool, s float32) {
 	case 1:
 		if indirect {
 			// blend of transparent (0x7f) and palette[7] with t = 0x80 -> computed by the reference formula
-			d.SetCReg(0, false, ivg.BlendColor(0x80, 0x7f, 0x87))
+			// 80:80:80:80 blended with palette[7] at t=0x40: every channel depends on the +128 rounding term
+			d.SetCReg(0, false, ivg.BlendColor(0x40, 0x7e, 0x87))
 		} else {
 			pal := c16Palette
-			c := ref.Color3Indirect(0x80, 0x7f, 0x87).Resolve(&pal, &pal)
+			c := ref.Color3Indirect(0x40, 0x7e, 0x87).Resolve(&pal, &pal)
 			d.SetCReg(0, false, ivg.RGBAColor(c))
+		}
+	case 4:
+		// the initial content of a colour register (seeded from the palette) vs the direct colour
+		d.SetCSel(3)
+		if !indirect {
+			d.SetCReg(0, false, ivg.RGBAColor(c16FlatOpaque))
 		}
 	case 2, 3:
 		d.SetCSel(10)
@@ -255,8 +262,8 @@ func init() {
 	mc.Register(&mc.Check{
 		ID:    "C16",
 		Level: "exploration",
-		Rule: "engine P over (graphic x destination x rectangle x transformation): every one-path program over 10 shapes (L, l, H/V, Q+T, q+t, C+S, c+s, A, a, sub-paths via Y and y) x 4 fills (opaque, translucent, linear-pad gradient, radial-reflect gradient) x sizes {1,7,64,512,513,600,40x100,100x40,511x3} (thorough + {2x3,3x514,1024x16}) x {RGBA, Alpha} x {Src, Over}, and every ordered pair of one-path programs (1600) at sizes 64 and 7, rendered with raster/vec. " +
-			"Relations, pixel buffers byte for byte: (a) rectangle at offset (7,9) inside a larger image with sentinel margin == image of its own, margin untouched; (b) viewBox, coordinates and radii x 2^k, gradient matrix linear part x 2^-k, k in {-3,-1,+2,+6} == original; (c) colours via palette index / register reference / blend == direct colours; (d) [P1,P2] with operator Src == P1 with Src then P2 with Over by a fresh Renderer. " +
+		Rule: "engine P over (graphic x destination x rectangle x transformation): every one-path program over 10 shapes (L, l, H/V, Q+T, q+t, C+S, c+s, A, a, sub-paths via Y and y) x 5 fills (opaque via palette index, translucent via a rounding-sensitive blend, linear-pad gradient, radial-reflect gradient, initial content of a colour register) x sizes {1,7,64,512,513,600,40x100,100x40,511x3} (thorough + {2x3,3x514,1024x16}) x {RGBA, Alpha} x {Src, Over}, and every ordered pair of one-path programs (1600) at sizes 64 and 7, rendered with raster/vec. " +
+			"Relations, pixel buffers byte for byte: (a) rectangle at offset (7,9) inside a larger image with sentinel margin == image of its own, margin untouched; (b) viewBox, coordinates and radii x 2^k, gradient matrix linear part x 2^-k, k in {-3,-1,+2,+6} == original; (c) colours via palette index / register reference / blend == direct colours; (d) [P1,P2] with operator Src == P1 with Src then P2 with Over by a fresh Renderer; (r) relation (c) on a Renderer that rendered another graphic with the same palette before. " +
 			"distinct = hash of the rendered pixels; non-trivial = render that produced at least one non-zero and one zero pixel",
 		Assumptions: []string{"golang.org/x/image/vector is a trusted dependency", "every float operation of the renderer commutes exactly with power-of-two scaling in the absence of overflow/underflow (the exponent set avoids both)"},
 		Units:       func(tier string) int { return n1 + n1 },
@@ -273,6 +280,7 @@ func init() {
 							big := sz[0] > 100
 							c16Check(w, &c16Case{Prog: p, W: sz[0], H: sz[1], Alpha: alpha, Op: op, Rel: "a"})
 							c16Check(w, &c16Case{Prog: p, W: sz[0], H: sz[1], Alpha: alpha, Op: op, Rel: "c"})
+							c16Check(w, &c16Case{Prog: p, W: sz[0], H: sz[1], Alpha: alpha, Op: op, Rel: "r"})
 							for _, k := range []int{-3, -1, 2, 6} {
 								_ = big
 								c16Check(w, &c16Case{Prog: p, W: sz[0], H: sz[1], Alpha: alpha, Op: op, Rel: "b", K: k})
@@ -395,6 +403,29 @@ func c16Check(w *mc.W, cs *c16Case) {
 		c16Render(other, rect0, op, func(d ivg.Destination) { p.emit(d, 0, true, 0, n, true) })
 		if i := firstDiffPix(*basePix, *otherPix); i >= 0 {
 			fail("indirect-colours:pixels-differ", fmt.Sprintf("colours through palette/register/blend differ from direct colours at byte %d (%d vs %d)", i, (*otherPix)[i], (*basePix)[i]))
+			return
+		}
+	case "r":
+		// (c)/(a) on a Renderer that rendered another graphic with the same palette before: colours
+		// through palette / registers (incl. the registers' initial content) must still equal direct colours
+		other, otherPix := c16NewImg(cs.Alpha, rect0)
+		scratch, _ := c16NewImg(cs.Alpha, image.Rect(0, 0, 9, 9))
+		var z render.Renderer
+		vs := vec.NewRasterizer(scratch)
+		z.SetRasterizer(vs, scratch.Bounds())
+		z.Reset(c16VB, c16Palette)
+		for i := 0; i < 64; i++ {
+			z.SetCReg(0, true, ivg.RGBAColor(color.RGBA{uint8(i), 0x7f, 0, 0xff}))
+			z.SetNReg(0, true, 0.25)
+		}
+		z.SetCSel(7)
+		c16Shapes[0].draw(&z, 0, 1)
+		vz := vec.NewRasterizer(other)
+		vz.DrawOp = op
+		z.SetRasterizer(vz, rect0)
+		p.emit(&z, 0, true, 0, n, true)
+		if i := firstDiffPix(*basePix, *otherPix); i >= 0 {
+			fail("reused-renderer:pixels-differ", fmt.Sprintf("indirect colours on a Renderer that rendered another graphic with the same palette differ from direct colours on a fresh one at byte %d (%d vs %d)", i, (*otherPix)[i], (*basePix)[i]))
 			return
 		}
 	case "d":
